@@ -149,6 +149,50 @@ def apply_mod(data, mod):
             am[idx] = 1.0
         data.mo = MolecularOrbitals("restricted", mo.norba, mo.norbb, occs, np.array(mo.coeffs),
                                     None if mo.energies is None else np.array(mo.energies), None, am)
+    elif op == "mo_aminusb_zero":
+        # spin-paired open shell: two singly occupied orbitals (integer occupations) with occs_aminusb == 0
+        mo = data.mo
+        if mo.kind != "restricted":
+            norb = mo.norba
+            mo = MolecularOrbitals("restricted", norb, norb, np.array(mo.occsa) + np.array(mo.occsb[:norb]) if mo.norbb == norb else np.array(mo.occsa) * 2,
+                                   np.array(mo.coeffsa), None if mo.energies is None else np.array(mo.energiesa))
+        occs = np.round(np.array(mo.occs))
+        two = np.nonzero(occs == 2)[0]
+        zero = np.nonzero(occs == 0)[0]
+        if len(two) and len(zero):
+            occs[two[-1]] = 1.0
+            occs[zero[0]] = 1.0
+        data.mo = MolecularOrbitals("restricted", mo.norba, mo.norbb, occs, np.array(mo.coeffs),
+                                    None if mo.energies is None else np.array(mo.energies), None, np.zeros_like(occs))
+    elif op == "conv_signs":
+        # the caller's basis uses its own sign conventions (as ORCA does for f/g functions); C-contiguous coefficients
+        conv = {}
+        for key, names in data.obasis.conventions.items():
+            names = list(names)
+            if key[0] >= 1 and len(names) >= 2:
+                for i in (0, len(names) - 1):
+                    names[i] = names[i][1:] if names[i].startswith("-") else "-" + names[i]
+            conv[key] = names
+        data.obasis = MolecularBasis(data.obasis.shells, conv, data.obasis.primitive_normalization)
+        if data.mo is not None and data.mo.coeffs is not None:
+            data.mo.coeffs = np.ascontiguousarray(data.mo.coeffs)
+    elif op == "asym_noise":
+        # matrices that are symmetric only up to numerical noise (finite differences, matrix products)
+        def noisy(mat):
+            mat = np.array(mat, dtype=float)
+            if mat.ndim == 2 and mat.shape[0] == mat.shape[1] and mat.shape[0] > 1:
+                mat = mat + 1e-6 * np.triu(np.ones_like(mat), 1)
+            return mat
+        for k in list(data.one_rdms):
+            data.one_rdms[k] = noisy(data.one_rdms[k])
+        if data.athessian is not None:
+            data.athessian = noisy(data.athessian)
+        n = data.natom or 0
+        if data.athessian is None and n:
+            data.athessian = noisy(np.eye(3 * n))
+        for k in list(data.extra):
+            if isinstance(data.extra[k], np.ndarray) and data.extra[k].ndim == 2:
+                data.extra[k] = noisy(data.extra[k])
     elif op == "gen_contraction":
         # merge the first two shells on the same centre with equal exponents count into one
         # generalized contraction; fall back to duplicating a contraction of shell 0.
